@@ -122,7 +122,7 @@ def exec_loop_paths(interp, s, frame, state):
         with use_state(state):
             _symbolic_for(interp, s, frame, state, space)
     except Fork as f:
-        # an undecided condition about the loop bounds (zero-trip test): split the path and redo the loop on both sides
+        # the zero-trip test (hi > lo) is not decided by the path condition: split on it (taken before any effect)
         return interp._split(f, fr0, st0, lambda fr, st: exec_loop_paths(interp, s, fr, st), 0)
     except PyRaise as e:
         return [(frame, state, ("raise", e.exc_type, e.msg))]
@@ -261,7 +261,17 @@ def _symbolic_for(interp, s, frame, state, space):
     where = f"{frame.fname}:{s.lineno}"
     key = (frame.fname, "for", _loop_ordinal(frame, s))
     # zero-trip: split on hi <= lo unless decided
-    nonempty = interp.decide(sv.cmp(">", hi, lo))
+    merged, zero_fork = False, None
+    try:
+        nonempty = interp.decide(sv.cmp(">", hi, lo))
+    except Fork as f:
+        # zero-trip not decided.  The closed forms below (sums, accumulations, scatter stores, file positions) also
+        # describe the empty loop (they reduce to the pre-state for hi <= lo), so the loop is summarised without a
+        # case split when every effect has such a form; variables that only have a last-iteration value become
+        # unbound markers (any later use is `unsupported`, never a wrong value).  Otherwise the split is taken.
+        if s.orelse or not getattr(interp, "merge_zero_trip", True):
+            raise
+        merged, zero_fork, nonempty = True, f, True
     if not nonempty:
         if s.orelse:
             interp.exec_body_single(s.orelse, frame)
@@ -269,6 +279,11 @@ def _symbolic_for(interp, s, frame, state, space):
     written = interp.loop_hints.get(key)
     if written is not None:
         return written(interp, s, frame, st, lo, hi, item_fn)
+    rule = interp.loop_hints.get((frame.fname, "for", "*"))
+    if rule is not None:
+        # a rule offered for every symbolic loop of the function; it declines with NotImplemented
+        if rule(interp, s, frame, st, lo, hi, item_fn) is not NotImplemented:
+            return None
     side_mark = len(st.side)
     modified = sorted(_assigned_names(s.body) | _assigned_names([ast.Assign(targets=[s.target], value=ast.Constant(0))]))
     target_names = _assigned_names([ast.Assign(targets=[s.target], value=ast.Constant(0))])
@@ -325,6 +340,7 @@ def _symbolic_for(interp, s, frame, state, space):
     heap_h = dict(pre_heap)
     arr_h = {}
     other_touched = []
+    file_h = {}
     for sid in touched:
         c = pre_heap[sid]
         if c.kind == "arr":
@@ -335,6 +351,12 @@ def _symbolic_for(interp, s, frame, state, space):
             arr_h[sid] = (shape, dt, fn)
         else:
             other_touched.append(sid)
+            if c.kind == "file":
+                # abstract read position of an open file handle: loop-carried integer
+                hp = sv.fresh_int(f"hpos{sid}_")
+                heap_h[sid] = Content("file", dict(c.data, pos=hp), c.meta)
+                file_h[sid] = hp
+                hv_consts.add(hp.t.get_id())
     # names of havoc functions
     for sid, (shape, dt, fn) in arr_h.items():
         probe = fn(tuple(sv.fresh_int("p") for _ in shape)) if shape else fn(())
@@ -355,6 +377,17 @@ def _symbolic_for(interp, s, frame, state, space):
     iz = i.t
     summary_env = {}
     summary_heap = {}
+    # ---- derived induction variables: a file position advancing by a loop-invariant amount has the closed form
+    #      pos(i) = pos0 + delta (i - lo); it is substituted into the other effects before they are analysed
+    #      (the closed forms are checked by the same init/step obligations)
+    resolved = []
+    for sid, hp in file_h.items():
+        postp = st1.heap[sid].data.get("pos")
+        d = sv.sub(postp, hp)
+        dts = [z3.simplify(t) for t in _terms_of(d)]
+        if not any(_contains_any(t, hv_consts, hv_funcs) or _mentions(t, iz) for t in dts):
+            closed = sv.add(pre_heap[sid].data["pos"], sv.mul(d, sv.sub(i, lo)))
+            resolved.append((hp.t, sv.znum(closed)))
     # ---- scalars
     for name in modified:
         if name in target_names:
@@ -362,6 +395,8 @@ def _symbolic_for(interp, s, frame, state, space):
         post = fr1.env.get(name, _MISSING)
         if post is _MISSING:
             continue
+        if resolved and sv.is_scalar(norm(post)):
+            post = _subst_val(post, resolved)
         pre = pre_env.get(name, _MISSING)
         summary_env[name] = _summarise_value(interp, name, pre, post, env_h.get(name, _MISSING), iz, lo, hi, hv_consts, hv_funcs, st1)
     # the loop target keeps its last value
@@ -377,10 +412,14 @@ def _symbolic_for(interp, s, frame, state, space):
         idx = tuple(sv.fresh_int("x") for _ in shape)
         post_fn = st1.heap[sid].data
         postv = post_fn(idx)
+        if resolved:
+            postv = _subst_val(postv, resolved)
         prev = hfn(idx)
         summary_heap[sid] = _summarise_array(sid, shape, dt, idx, prev, postv, iz, lo, hi, hv_consts, hv_funcs, pre_heap)
     for sid in other_touched:
-        summary_heap[sid] = _summarise_cell(interp, sid, pre_heap[sid], heap_h, st1, iz, lo, hi, hv_consts, hv_funcs)
+        if merged and pre_heap[sid].kind != "file":
+            raise zero_fork
+        summary_heap[sid] = _summarise_cell(interp, sid, pre_heap[sid], heap_h, st1, iz, lo, hi, hv_consts, hv_funcs, guarded=merged)
     # ---- build state(k) and check init / step
     def state_at(k):
         env = dict(pre_env)
@@ -428,6 +467,11 @@ def _symbolic_for(interp, s, frame, state, space):
         else:
             goals.extend(_cell_eq_goals(st2.heap[sid], heap_n[sid]))
     assum = st2.all_assumptions()
+    import os
+    if os.environ.get("PYVC_DEBUG_LOOPS"):
+        print("LOOP-DEBUG step goals at", where)
+        for g in goals:
+            print("   ", z3.simplify(g))
     for g in goals:     # one query per carried variable / array cell (small queries)
         st.side.append(_SideGoal("loop-step", g, assum, where))
     # init check: state(lo) == pre-state
@@ -456,17 +500,34 @@ def _symbolic_for(interp, s, frame, state, space):
     for name, summ in summary_env.items():
         if summ[0] in ("last", "last_obj"):
             frame.env[name] = _instantiate(summ, hi, iz, lo, None)
+    if merged:
+        for name, summ in summary_env.items():
+            if summ[0] == "last":
+                pre = pre_env.get(name, _MISSING)
+                if pre is not _MISSING and sv.is_scalar(norm(pre)) and sv.is_scalar(norm(frame.env[name])):
+                    frame.env[name] = ite(sv.cmp(">", hi, lo), frame.env[name], pre)
+                else:
+                    frame.env[name] = UnboundAfterLoop(name, where)
+            elif summ[0] != "sum":
+                frame.env[name] = UnboundAfterLoop(name, where)
     for sid, c in heap_f.items():
         if sid in summary_heap:
             st.heap[sid] = c
             st.events.append(("store", sid, where, list(st.pc)))
     # new allocations made by the last iteration that remain referenced by last-value variables
-    _import_last_iteration_cells(fr1, st1, st, iz, hi, summary_env, frame)
+    if not merged:
+        _import_last_iteration_cells(fr1, st1, st, iz, hi, summary_env, frame)
     if s.orelse:
         interp.exec_body_single(s.orelse, frame)
 
 
 _MISSING = object()
+
+
+class UnboundAfterLoop:
+    """value of a variable that is only assigned inside a loop whose zero-trip case was not split off"""
+    def __init__(self, name, where):
+        self.name, self.where = name, where
 
 
 def _loop_ordinal(frame, s):
@@ -587,25 +648,62 @@ def _summarise_array(sid, shape, dt, idx, prev, postv, iz, lo, hi, hv_consts, hv
                 return sv.add(pre_fn(ix), Sum(lo, k, lambda t: _subst_val(delta, pairs + [(iz, sv.znum(t))])))
             return Content("arr", A._memo(fn), meta)
         return at
-    # (2) scatter store: post = ite(cond(i, idx), e(i, idx), prev) with cond selecting idx_k == g_k(i) on some axes
-    dec = _decompose_store(postv, prev)
+    # (2) conditional effects: post = ite(cond(i, idx), x(i, idx), prev)
+    dec = _decompose_store(_subst_val(postv, []), prev)
     if dec is not None:
-        cond, val = dec   # z3 bool cond(i, idx), value (SV/Cx) not mentioning havoc
-        vts = _terms_of(val) + [cond]
-        if not any(_contains_any(t, hv_consts, hv_funcs) for t in vts):
-            sol = _solve_writer(cond, iz, idz)
-            if sol is not None:
-                w, residual = sol   # writer iteration as a term over idx; residual condition over idx (with i:=w)
+        cond, val = dec   # z3 bool cond(i, idx), value (SV/Cx)
+        if not _contains_any(cond, hv_consts, hv_funcs):
+            # the old content at the stored position, written with the index equalities of cond (A[n, i] += v reads A[n, i])
+            eqs = _index_equalities(cond, idz)
+            prev_at = _subst_val(prev, eqs) if eqs else prev
+            # (2a) conditional accumulation: x - prev free of loop-carried state
+            dlt = sv.sub(val, prev_at)
+            dts = [z3.simplify(t) for t in _terms_of(dlt)]
+            if any(_contains_any(t, hv_consts, hv_funcs) for t in dts):
+                dlt = sv.sub(val, prev)
+                dts = [z3.simplify(t) for t in _terms_of(dlt)]
+            if not any(_contains_any(t, hv_consts, hv_funcs) for t in dts):
+                dlt = _subst_val(dlt, [])
+                cond_has_i = _mentions(cond, iz)
 
                 def at(k):
                     def fn(ix, k=k):
                         pairs = [(a, sv.znum(b)) for a, b in zip(idz, ix)]
-                        wk = z3.simplify(z3.substitute(w, *pairs))
-                        c = z3.And(wk >= sv.znum(lo), wk < sv.znum(k), z3.substitute(residual, *pairs))
-                        v = _subst_val(_subst_val(val, [(iz, w)]), pairs)
-                        return ite(sv.wrap(z3.simplify(c)), v, lambda: pre_fn(ix))
+                        if cond_has_i:
+                            return sv.add(pre_fn(ix), Sum(lo, k, lambda t: ite(sv.wrap(z3.simplify(z3.substitute(cond, *(pairs + [(iz, sv.znum(t))])))),
+                                                                                   lambda: _subst_val(dlt, pairs + [(iz, sv.znum(t))]), 0)))
+                        c = sv.wrap(z3.simplify(z3.substitute(cond, *pairs))) if pairs else sv.wrap(z3.simplify(cond))
+                        return ite(c, lambda: sv.add(pre_fn(ix), Sum(lo, k, lambda t: _subst_val(dlt, pairs + [(iz, sv.znum(t))]))), lambda: pre_fn(ix))
                     return Content("arr", A._memo(fn), meta)
                 return at
+            # (2b) scatter store / scatter update: every position is written by at most one iteration w(idx) (affine writer);
+            #      the stored value may use the old content of the same position
+            pts = _terms_of(prev_at)
+            holes = [z3.Const(sv.fresh_name("old"), t.sort()) for t in pts]
+            val_p = _subst_val(val, list(zip(pts, holes)) + list(zip(_terms_of(prev), holes))) if pts else val
+            vts = _terms_of(val_p)
+            if not any(_contains_any(t, hv_consts, hv_funcs) for t in vts):
+                sol = _solve_writer(cond, iz, idz)
+                if sol is not None:
+                    w, residual = sol   # writer iteration as a term over idx; residual condition over idx (with i:=w)
+
+                    def at(k):
+                        def fn(ix, k=k):
+                            pairs = [(a, sv.znum(b)) for a, b in zip(idz, ix)]
+                            wk = z3.simplify(z3.substitute(w, *pairs))
+                            c = z3.And(wk >= sv.znum(lo), wk < sv.znum(k), z3.substitute(residual, *pairs))
+
+                            def newv():
+                                v = _subst_val(_subst_val(val_p, [(iz, w)]), pairs)
+                                if holes:
+                                    v = _subst_val(v, list(zip(holes, _terms_of(pre_fn(ix)))))
+                                return v
+                            return ite(sv.wrap(z3.simplify(c)), newv, lambda: pre_fn(ix))
+                        return Content("arr", A._memo(fn), meta)
+                    return at
+    import os
+    if os.environ.get("PYVC_DEBUG_LOOPS"):
+        print("LOOP-DEBUG post:", _subst_val(postv, []), "\n  prev:", prev, "\n  iz:", iz)
     raise EngineError(f"array #{sid}: loop effect is neither an accumulation nor an affine scatter store — needs a written summary")
 
 
@@ -632,6 +730,29 @@ def _decompose_store(postv, prev):
         if x.eq(prev.t):
             return z3.Not(c), sv.wrap(y)
     return None
+
+
+def _index_equalities(cond, idz):
+    """conjuncts idx_k == term of cond -> [(idx_k, term)]"""
+    conj = []
+
+    def flat(c):
+        if z3.is_and(c):
+            for ch in c.children():
+                flat(ch)
+        else:
+            conj.append(c)
+    flat(z3.simplify(cond))
+    ids = {x.get_id(): x for x in idz}
+    out = []
+    for c in conj:
+        if z3.is_eq(c):
+            a, b = c.children()
+            if a.get_id() in ids and not any(_mentions(b, x) for x in idz):
+                out.append((a, b))
+            elif b.get_id() in ids and not any(_mentions(a, x) for x in idz):
+                out.append((b, a))
+    return out
 
 
 def _solve_writer(cond, iz, idz):
@@ -715,7 +836,7 @@ def _mentions(t, c):
     return False
 
 
-def _summarise_cell(interp, sid, pre_cell, heap_h, st1, iz, lo, hi, hv_consts, hv_funcs):
+def _summarise_cell(interp, sid, pre_cell, heap_h, st1, iz, lo, hi, hv_consts, hv_funcs, guarded=False):
     """non-array heap cells touched by the body: python lists (append), dataframes (column updates), objects"""
     post_cell = st1.heap[sid]
     if pre_cell.kind == "list":
@@ -750,7 +871,22 @@ def _summarise_cell(interp, sid, pre_cell, heap_h, st1, iz, lo, hi, hv_consts, h
                 return at
         raise EngineError("list mutated in a symbolic loop in an unsupported way")
     if pre_cell.kind == "file":
-        return _summarise_file_cell(pre_cell, post_cell, iz, lo, hi, hv_consts, hv_funcs)
+        if pre_cell.data.get("mode") == "w":
+            return _summarise_file_cell(pre_cell, post_cell, iz, lo, hi, hv_consts, hv_funcs)
+        hp = heap_h[sid].data["pos"]
+        d = sv.sub(post_cell.data["pos"], hp)
+        dts = [z3.simplify(t) for t in _terms_of(d)]
+        if any(_contains_any(t, hv_consts, hv_funcs) for t in dts):
+            raise EngineError("file position in a symbolic loop: not an accumulation")
+        d = _subst_val(d, [])
+        const = not any(_mentions(t, iz) for t in _terms_of(d))
+
+        def at(k, d=d):
+            # every instantiation of the loop rule has k >= lo
+            cnt = sv.sub(k, lo) if not guarded else ite(sv.cmp(">", k, lo), sv.sub(k, lo), 0)
+            adv = sv.mul(d, cnt) if const else Sum(lo, k, lambda t: _subst_val(d, [(iz, sv.znum(t))]))
+            return Content("file", dict(pre_cell.data, pos=A.simp(sv.add(pre_cell.data["pos"], adv))), pre_cell.meta)
+        return at
     if pre_cell.kind == "df":
         from .pandas_model import summarise_df_cell
         return summarise_df_cell(interp, sid, pre_cell, post_cell, heap_h, st1, iz, lo, hi, hv_consts, hv_funcs)
@@ -855,6 +991,8 @@ def _cell_eq_goals(a, b):
             for g in _eq_goals(fa(p), fb(p)):
                 goals.append(z3.Implies(rng, g))
         return goals
+    if a.kind == "file" and b.kind == "file":
+        return _eq_goals(a.data["pos"], b.data["pos"])
     if a.kind == "df" and b.kind == "df":
         from .pandas_model import df_cell_eq_goals
         return df_cell_eq_goals(a, b, _eq_goals)
@@ -983,3 +1121,152 @@ def _merge_paths(paths, where):
 
 def _summarise_multi(interp, s, frame, st, lo, hi, item_fn, normal, i, scal_h, pre_env, pre_heap, where):
     raise EngineError(f"loop body at {where} forks into {len(normal)} paths — needs a written summary or mergeable branches")
+
+
+# ----------------------------------------------------------------------------------------------
+# scatter-store nests
+
+
+def scatter_nest_rule(interp, s, frame, st, lo, hi, item_fn):
+    """Rule for a PERFECT nest of >= 2 symbolic range-loops whose innermost body is loop-free and whose only effect is
+    a store  A[g(iota)] = e(iota)  (e independent of A and of loop-carried state) — e.g. filling a grid through a
+    computed flat index.  The automatic summaries need an affine injective writer; here g may be non-affine and even
+    non-injective, so no closed form is claimed:
+
+      * the innermost body is executed once at symbolic loop indices iota from a havocked content of the touched
+        arrays (its index-bounds side obligations are recorded as usual) and the store is recorded as a *probe*
+        (array, condition, stored value, loop variables, ranges, assumptions) in ``interp.probes`` — contracts state
+        their clauses (range, injectivity, order, stored value) on the probe, i.e. on the real index expression;
+      * the post-state OVER-APPROXIMATES the nest: inside the part of the array the store can reach (the conjuncts
+        of the store condition that do not mention loop variables) the content becomes an unknown function of the
+        position and of the environment the store depends on; elsewhere it is unchanged.
+    Returns NotImplemented when the loop is not such a nest."""
+    loops_ = [s]
+    inner = s
+    while len(inner.body) == 1 and isinstance(inner.body[0], ast.For) and not inner.body[0].orelse:
+        inner = inner.body[0]
+        loops_.append(inner)
+    body = inner.body
+    if len(loops_) < 2 or s.orelse:
+        return NotImplemented
+    for b in body:
+        for n in ast.walk(b):
+            if isinstance(n, (ast.For, ast.While, ast.Return, ast.Break, ast.Continue)):
+                return NotImplemented
+    where = f"{frame.fname}:{s.lineno}"
+    pre_heap = dict(st.heap)
+    pre_env = dict(frame.env)
+    side_mark = len(st.side)
+    loop_vars = []
+    pre_assumptions = []
+
+    def run(heap_in):
+        fr = Frame(frame.module, dict(pre_env), frame.fname)
+        st2 = st.fork()
+        st2.heap = dict(heap_in)
+        st2.events = []
+        del loop_vars[:]
+        with use_state(st2):
+            for k, L in enumerate(loops_):
+                if k == 0:
+                    l, h, itf = lo, hi, item_fn
+                else:
+                    space = _iter_space(interp, L, fr)
+                    if space[0] != "sym":
+                        return None
+                    _, l, h, itf = space
+                v = sv.fresh_int("nest")
+                st2.pc.append(sv.zb(sv.cmp(">=", v, l)))
+                st2.pc.append(sv.zb(sv.cmp("<", v, h)))
+                interp.assign(L.target, itf(v), fr)
+                loop_vars.append((v, l, h))
+            pre_assumptions[:] = st2.all_assumptions()      # before the body: index-bounds requirements are NOT among them
+            outs = interp.exec_block_paths(body, fr, st2)
+        return outs
+    try:
+        outs = run(pre_heap)
+    except Fork:
+        return NotImplemented
+    if outs is None:
+        return NotImplemented
+    normal = [(fr, s2) for fr, s2, out in outs if out[0] == "normal"]
+    if len(normal) != 1 or len(outs) != 1:
+        return NotImplemented
+    st1 = normal[0][1]
+    touched = sorted({sid for sid in st1.heap if sid in pre_heap and st1.heap[sid] is not pre_heap[sid]})
+    if not touched or any(pre_heap[sid].kind != "arr" for sid in touched):
+        return NotImplemented
+    heap_h, arr_h = dict(pre_heap), {}
+    hv_funcs, hv_consts = set(), set()
+    for sid in touched:
+        c = pre_heap[sid]
+        shape = c.meta["shape"]
+        dt = _dtype_of_sid(pre_env, sid, st, c)
+        if dt == "complex" or not shape:
+            return NotImplemented
+        fn = _havoc_array_content(shape, dt, f"N{sid}_")
+        heap_h[sid] = Content("arr", fn, c.meta)
+        arr_h[sid] = (shape, dt, fn)
+        probe = fn(tuple(sv.fresh_int("p") for _ in shape))
+        for t in _terms_of(probe):
+            hv_funcs.add(t.decl().name())
+    del st.side[side_mark:]
+    outs = run(heap_h)
+    normal = [(fr, s2) for fr, s2, out in outs if out[0] == "normal"]
+    if len(normal) != 1 or len(outs) != 1:
+        return NotImplemented
+    fr1, st1 = normal[0]
+    lvz = [v.t for v, _, _ in loop_vars]
+    new_content = {}
+    probes = []
+    for ordinal, (sid, (shape, dt, hfn)) in enumerate(sorted(arr_h.items())):
+        idx = tuple(sv.fresh_int("x") for _ in shape)
+        idz = [x.t for x in idx]
+        postv = _subst_val(st1.heap[sid].data(idx), [])
+        prev = hfn(idx)
+        dec = _decompose_store(postv, prev)
+        if dec is None:
+            return NotImplemented
+        cond, val = dec
+        if _contains_any(cond, hv_consts, hv_funcs) or any(_contains_any(t, hv_consts, hv_funcs) for t in _terms_of(val)):
+            return NotImplemented
+        conj = []
+
+        def flat(c):
+            if z3.is_and(c):
+                for ch in c.children():
+                    flat(ch)
+            else:
+                conj.append(c)
+        flat(z3.simplify(cond))
+        static = [c for c in conj if not any(_mentions(c, v) for v in lvz)]
+        from .sigma import free_consts
+        params = []
+        for t in [cond] + _terms_of(val):
+            for c in free_consts(t):
+                if not any(c.eq(x) for x in lvz + idz + params):
+                    params.append(c)
+        name = f"NEST_{frame.fname.split('.')[-1]}_{s.lineno}_{ordinal}"
+        sort = {"float": z3.RealSort(), "int": z3.IntSort(), "bool": z3.BoolSort()}[dt]
+        G = z3.Function(name, *([z3.IntSort()] * len(shape) + [p.sort() for p in params] + [sort]))
+        pre_fn = pre_heap[sid].data
+        static_c = z3.And(*static) if static else z3.BoolVal(True)
+
+        def fn(ix, G=G, params=params, idz=idz, static_c=static_c, pre_fn=pre_fn):
+            pairs = [(a, sv.znum(b)) for a, b in zip(idz, ix)]
+            c = sv.wrap(z3.simplify(z3.substitute(static_c, *pairs)))
+            return ite(c, lambda: sv.wrap(G(*([sv.znum(b) for b in ix] + params))), lambda: pre_fn(ix))
+        new_content[sid] = Content("arr", A._memo(fn), pre_heap[sid].meta)
+        vname = next((k for k, v in pre_env.items() if isinstance(v, A.Arr) and v.sid == sid), None)
+        probes.append(dict(sid=sid, array=vname, where=where, cond=cond, val=val, idx=list(idx), shape=tuple(shape),
+                           loop_vars=[(v, l, h) for v, l, h in loop_vars], assumptions=list(pre_assumptions),
+                           equalities=_index_equalities(cond, idz), depth=len(loops_)))
+    if not hasattr(interp, "probes"):
+        interp.probes = []
+    interp.probes.extend(probes)
+    for sid, c in new_content.items():
+        st.heap[sid] = c
+        st.events.append(("store", sid, where, list(st.pc)))
+    for name in _assigned_names([s]):
+        frame.env[name] = UnboundAfterLoop(name, where)
+    return None
